@@ -258,7 +258,21 @@ func createConn(
 	conn.setRemoteEpoch(0)
 	conn.setLocalEpoch(0)
 
+	// A resumed connection is established from the start: what it negotiated
+	// is reported before the first Read, Write or Handshake call as well.
+	if resumeState != nil && resumesSerialisedSession(handshakeConfig) {
+		conn.state = resumeState
+	}
+
 	return conn, nil
+}
+
+// resumesSerialisedSession reports whether a connection created with a
+// serialised state continues that DTLS 1.2 session (and does not negotiate a
+// DTLS 1.3 one).
+func resumesSerialisedSession(handshakeConfig *dtlsconfig.HandshakeConfig) bool {
+	return handshakeConfig.ResumeState != nil &&
+		(handshakeConfig.MaxVersion == protocol.Version1_2 || handshakeConfig.MinVersion == protocol.Version1_2)
 }
 
 func newConn(
